@@ -169,7 +169,8 @@ def main(pid, tier, seed, replay_path=None):
         ds = gen.gen_dataset(rng.fork(), dict(gen.PROFILES["opt"], nmax=6, lmax=3))
         base = os.path.join(d, "base%d" % di)
         dss.append(ds)
-        l3.write_cache(ds, base)
+        # every second directory is written in multi-segment messages (32-word segments), as real-size files are
+        l3.write_cache(ds, base, segment_words=(32 if di % 2 == 1 else None))
         n1, n2 = ds.nodes[0], ds.nodes[-1]
         stub.set_tables([(n1, 30, 40)], [(n2, 30, 40)])
         t = min(tt[0][1] for (_, _, _, tt) in ds.trips)
@@ -330,7 +331,7 @@ def main(pid, tier, seed, replay_path=None):
                obligations=max(1, po["obligations"]), discharged=po["discharged"], checker_cmd=po["checker_cmd"], trusted_base=cl.TRUSTED_BASE,
                theorems=po["theorems"], print_assumptions=po["assumptions"], open_statements=cl_open(pid),
                evaluations=len(results), distinct_nontrivial=len(set(r["label"] for r in results)),
-               rule="fault enumeration on cache directories written from generated datasets: every file deleted / emptied; every pair of the six collection files the data status tests deleted together (and scenarios + all per-line files); truncation offsets, single-bit flips and zeroed ranges (all offsets and bits of the files <= 400 bytes in the thorough tier, samples otherwise); the cross-file inconsistencies of the property's list; for each: start the real binary%s, one request per endpoint, /updateCache?names=all, the requests again; distinct = distinct (fault kind, file, argument)" % (" (ASan+UBSan build)" if san else ""),
+               rule="fault enumeration on cache directories written from generated datasets (every second one in multi-segment messages): every file deleted / emptied; every pair of the six collection files the data status tests deleted together (and scenarios + all per-line files); truncation offsets, single-bit flips and zeroed ranges (all offsets and bits of the files <= 400 bytes in the thorough tier, samples otherwise); the cross-file inconsistencies of the property's list; for each: start the real binary%s, one request per endpoint, /updateCache?names=all, the requests again; distinct = distinct (fault kind, file, argument)" % (" (ASan+UBSan build)" if san else ""),
                samples=[dict(fault=r["label"], answers=r["answers"][:4]) for r in results[:3]], fault_kinds=kinds, outcome_classes=outcomes,
                violations=len(fails) + len(rf["fails"]) + len(cp["fails"]), crafted_corpus_cases=cp["cases"], exhaustive=False, sanitizers=san,
                loader_model_rule="every fault of the run that is expressible at decoded level (file deleted = FMissing, file emptied = FGarbled [], the cross-file inconsistencies as changes of the messages; not: truncations, bit flips, zeroed ranges) is also applied to the messages Loader2.encode_all gives for the dataset (in the layout of tools/l3.py write_cache); the extracted Loader2.load_all must predict the outcome class and error code of the real server's answers at start-up (READY = serves, otherwise the fast data_error with the MISSING_DATA code of the status), Loader2.update [CAll] from that state the class after the /updateCache?names=all of the probe; in the refresh-fault phase load_all predicts the fresh server and update (names as sent, from load_all of the healthy files) the refreshed server after every /updateCache",
